@@ -314,6 +314,14 @@ func mkPkgs(tier string) []Pkg {
 		emit("special_conversion_"+cs.id, []string{cs.fn}, names)
 	}
 	head = ""
+	// parenthesised type groups (rejected by the pinned translator: may-reject); when accepted every spec is a declaration
+	mayReject = true
+	emit("special_type_group_rev", []string{"type (\n\tTp struct {\n\t\titem Ti\n\t\tn    uint64\n\t}\n\tTi struct {\n\t\tv uint64\n\t}\n)", "func UTp(p Tp) uint64 {\n\treturn p.item.v + p.n\n}"}, []string{"Tp", "Ti", "UTp"})
+	emit("special_type_group_outside_between", []string{"type (\n\tTm struct {\n\t\tw To\n\t}\n\tTl struct {\n\t\tv uint64\n\t}\n)", "type To struct {\n\tleaf Tl\n}", "func UTm(m Tm) uint64 {\n\treturn m.w.leaf.v\n}"}, []string{"Tm", "Tl", "To", "UTm"})
+	emit("special_type_group_tail_unused", []string{"type (\n\tTa struct {\n\t\tv uint64\n\t}\n\tTb struct {\n\t\tw uint64\n\t}\n)", "func (b *Tb) Grow() {\n\tb.w = b.w + 1\n}", "func Unused() uint64 {\n\treturn 1\n}"}, []string{"Ta", "Tb", "Tb__Grow", "Unused"})
+	mayReject = false
+	// a const group followed by declarations nothing refers to (they must still be emitted)
+	emit("special_group_then_unreferenced", []string{"const (\n\tGa uint64 = 1\n\tGb uint64 = 2\n\tGc uint64 = 3\n)", "type Box struct {\n\tv uint64\n}", "func (b *Box) Grow() {\n\tb.v = b.v + Ga\n}", "func Unused() uint64 {\n\treturn 1\n}"}, []string{"Ga", "Gb", "Gc", "Box", "Box__Grow", "Unused"})
 	// a type parameter (or a local variable, a parameter, a field) spelled like a package-level function that uses the declaration
 	emit("special_typeparam_named_as_func", []string{"func Bq[Aq any](x Aq) Aq {\n\treturn x\n}", "func Aq() uint64 {\n\treturn Bq[uint64](1)\n}"}, []string{"Bq", "Aq"})
 	emit("special_param_named_as_func", []string{"func Bp(Ap uint64) uint64 {\n\treturn Ap + 1\n}", "func Ap() uint64 {\n\treturn Bp(1)\n}"}, []string{"Bp", "Ap"})
